@@ -139,6 +139,18 @@ MUTANTS = [
      [("src/pipecheck.rs", "\t\tself.guarded(|w| w.write_all(buf))", "\t\tself.inner.write_all(buf)")]),
     ("r29-wrong-kind", "violations", "R29", "C16", "R16.2", "extension trait tests the wrong ErrorKind",
      [("src/pipecheck.rs", "if err.kind() == io::ErrorKind::BrokenPipe {", "if err.kind() == io::ErrorKind::WriteZero {")]),
+    ("r23-usage-exit-1", "violations", "R23", "C13", "R13.1", "central exit-code table maps usage errors to 1",
+     [("src/bail.rs", "\t\t\tSelf::Usage(_) => 2,", "\t\t\tSelf::Usage(_) => 1,")]),
+    ("r23-translate-unnamed", "violations", "R23", "C13", "R13.1", "translate failures lose the input's name in the central message table",
+     [("src/bail.rs", "Self::Translate(path, err) => writeln!(w, \"xt error in {path}: {err}\"),", "Self::Translate(_path, err) => writeln!(w, \"xt error: {err}\"),")]),
+    ("r23-flush-dropped", "violations", "R23", "C15", "R15.1", "flush result discarded in the session method",
+     [("src/main.rs", "\t\tself.translator.flush().map_err(Failure::Flush)", "\t\tlet _ = self.translator.flush();\n\t\tOk(())")]),
+    ("r23-stdin-not-claimed", "violations", "R23", "C14", "R14.3", "claim_stdin forgets to record the use",
+     [("src/main.rs", "\t\tself.stdin_used = true;\n", "")]),
+    ("r23-failure-ignored", "violations", "R23", "C13", "R13.1", "main drops the session's failure: exit status 0",
+     [("src/main.rs", "\tif let Err(failure) = session.translate_all(input_paths(input_pathnames)) {\n\t\tfailure.exit();\n\t}", "\tlet _ = session.translate_all(input_paths(input_pathnames));")]),
+    ("r23-extension-first", "violations", "R23", "C14", "R14.1", "extension wins over the forced format",
+     [("src/main.rs", "let from = self.forced_from.or_else(|| path.extension_format());", "let from = path.extension_format().or(self.forced_from);")]),
     ("r9-result-ignored", "violations", "R9", "C09", "R09.2", "the first row's format is returned whatever its trial says",
      [("src/detect.rs", "\t\tif input_matches(input.borrow_mut())? {\n\t\t\treturn Ok(Some(format));\n\t\t}\n", "\t\tlet _ = input_matches(input.borrow_mut())?;\n\t\treturn Ok(Some(format));\n")]),
 ]
